@@ -108,7 +108,10 @@ Theorem c15_late_join_current : forall u vf h oc oa od x, consistent vf h ->
           exists k, u k = true /\ kget k (spec_etcd h') = Some v /\ (x = true -> last_add log v = Some k))) /  (forall ops, calls_of ops = log ->
      forall k v, kget k (mapping (crun x ops)) = Some v <->
                  u k = true /\ kget k (spec_etcd h') = Some v /\ (x = true -> last_add log v = Some k)).
-Proof. intros u vf h oc oa od x C. split; [apply (late_join u vf h oc oa od x C)|apply (late_join_mapping u vf h oc oa od x C)]. Qed.
+Proof.
+  intros u vf h oc oa od x C. destruct (late_join u vf h oc oa od x C) as (A & B & D).
+  split; [exact A|]. split; [exact B|]. split; [exact D|]. apply (late_join_mapping u vf h oc oa od x C).
+Qed.
 Print Assumptions c15_late_join_current.
 
 (* the keys, not only the values: at every synced point a subscriber's mapping is the store under the prefix *)
